@@ -221,6 +221,25 @@ def conv (src tgt : Ty) (s : Src) (dest : Bool) : Res (Option Out × Nat) :=
     | .err e => .err e
     | .null => .null | .oob => .oob | .fault => .fault
 
+/-- the target code `'l'` (`long`, 108): `mpt_data_converter(src)(&val, 'l', dest)` followed by the caller's read of a
+    `long` object -/
+def convLong (src : Ty) (s : Src) (dest : Bool) : Res (Option Out × Nat) :=
+  match fnOf src with
+  | none => .err .BadType
+  | some f =>
+    match f.run 108 s dest with
+    | .ok (some st, n) =>
+      match readBack .x st with
+      | .ok o => .ok (some o, n)
+      | .err e => .err e | .null => .null | .oob => .oob | .fault => .fault
+    | .ok (none, n) => .ok (none, n)
+    | .err e => .err e
+    | .null => .null | .oob => .oob | .fault => .fault
+
+/-- `f(NULL, tgt, dest)`: every converter starts with `val = 0; if (from) val = *from;` -/
+def convNull (src tgt : Ty) (dest : Bool) : Res (Option Out × Nat) :=
+  conv src tgt (if src.isFloat then .flt (.fin false 0 0) else .int 0) dest
+
 /-- `mpt_value_argv(buf, 16, code, va)` as used by the vararg iterator (`mpt_process_vararg`): the caller passed a
     value of type `src` after the default argument promotions; it is fetched with `va_arg(va, A)`, stored as `S`,
     and the iterator hands the buffer out as a value of type `src`.  A code without its own case is fetched as
@@ -269,6 +288,24 @@ def consume (src tgt : Ty) (s : Src) (dest : Bool) : Res (Option Out × Nat) :=
 def argvConsume (src tgt : Ty) (s : Src) (dest : Bool) : Res (Option Out × Nat) :=
   match argvPass src s with
   | .ok s' => consume src tgt s' dest
+  | .err e => .err e
+  | .null => .null | .oob => .oob | .fault => .fault
+
+/-- `mpt_value_convert(val, 'l', dest)`: `'l'` is no value type, so there is no raw copy -/
+def valueConvertLong (src : Ty) (s : Src) (dest : Bool) : Res (Option Out × Nat) :=
+  match convLong src s dest with
+  | .ok (o, _) => .ok (o, 3)
+  | .err _ => .err .BadType
+  | r => r
+
+def consumeLong (src : Ty) (s : Src) (dest : Bool) : Res (Option Out × Nat) :=
+  match valueConvertLong src s dest with
+  | .ok (o, _) => .ok (o, src.code)
+  | r => r
+
+def argvConsumeLong (src : Ty) (s : Src) (dest : Bool) : Res (Option Out × Nat) :=
+  match argvPass src s with
+  | .ok s' => consumeLong src s' dest
   | .err e => .err e
   | .null => .null | .oob => .oob | .fault => .fault
 
